@@ -219,6 +219,10 @@ class CSSUnknownRule(cssrule.CSSRule):
             # set all
             if wellformed:
                 self.atkeyword = self._tokenvalue(attoken)
+                if self.atkeyword != self._normalize(self._tokenvalue(attoken)):
+                    # another keyword is refused (and only logged): the old
+                    # keyword does not get the new content
+                    return
                 self._setSeq(newseq)
 
     cssText = property(
